@@ -86,6 +86,23 @@ func init() {
 			"html.EscapeString and fasthttp.normalizePath stubbed (404 text / normalised path not observed by the router)",
 		},
 	}
+	props["C09"] = PropSpec{
+		ID: "C09",
+		Runs: []HarnessRun{
+			{Rel: ".", Dir: "fiber", Entry: "VH_C09_sort", Cases: tierCases([]int{2, 3}, []int{2, 3, 4}), Reach: []string{"sorted"}, MaxPaths: 100000},
+			{Rel: ".", Dir: "fiber", Entry: "VH_C09_ranges", Cases: tierCases([]int{1, 2, 3, 4}, []int{1, 2, 3, 4, 5, 6}), Reach: []string{"split"}, MaxPaths: 100000},
+			{Rel: ".", Dir: "fiber", Entry: "VH_C09_offer", Cases: tierCases([]int{0, 1, 4, 8, 9, 12}, []int{0, 1, 4, 5, 8, 9, 12, 13}), Reach: []string{"some", "none"}, MaxPaths: 100000},
+		},
+		Bounds: map[string]string{
+			"quick":    "sortAcceptedTypes: 2..3 entries with symbolic quality (any non-negative non-NaN float64), symbolic specificity 1..4, 0..2 parameters; forEachMediaRange: every byte string of length 1..4; getOffer end-to-end: 4 offer lists x 1 templated range, 2 of them x 2 ranges (5 media ranges, optional parameter, q absent/0/1/0.D with symbolic digit, optional space around commas)",
+			"thorough": "sort up to 4 entries; media-range splitter up to 6 bytes; all 4 offer lists x 1..2 templated ranges",
+		},
+		Assumptions: []string{
+			"quality values are compared through their IEEE-754 bit patterns (order-isomorphic for non-negative, non-NaN doubles); no float arithmetic is sent to the solver; ParseUfloat runs on concretised digits",
+			"end-to-end negotiation only for headers of the stated template; other headers are covered for splitting (harness 2) only",
+			"acceptsOffer (charset/encoding/language matching) is taken as given",
+		},
+	}
 	props["SMOKEFAIL"] = PropSpec{
 		ID: "SMOKEFAIL",
 		Runs: []HarnessRun{
